@@ -3,6 +3,7 @@ package main
 import (
 	"fmt"
 	"go/ast"
+	"go/token"
 	"go/types"
 	"sort"
 	"strings"
@@ -244,7 +245,11 @@ func persistedFields(w *World, pkgRel, typ string) map[string]bool {
 		if !ok || sel.Sel.Name != "Encode" || len(call.Args) != 1 {
 			return true
 		}
-		if s, ok := ast.Unparen(call.Args[0]).(*ast.SelectorExpr); ok {
+		arg := ast.Unparen(call.Args[0])
+		if u, ok := arg.(*ast.UnaryExpr); ok && u.Op == token.AND {
+			arg = ast.Unparen(u.X)
+		}
+		if s, ok := arg.(*ast.SelectorExpr); ok {
 			if id, ok := s.X.(*ast.Ident); ok && id.Name == recv {
 				out[s.Sel.Name] = true
 			}
